@@ -607,7 +607,8 @@ Proof. unfold in_range. rewrite andb_true_iff, !Z.ltb_lt. tauto. Qed.
 (* the proof carried by the dict folds to the root stored in the header at height h *)
 Definition proof_checks (headers : list bytes) (raw_tx : bytes) (h : Z) (m : merkle_resp) : Prop :=
   exists brs pos br, m_merkle m = Some brs /\ m_pos m = Some pos /\ decode_branches brs = Some br /\
-     fold_branch br pos (dsha raw_tx) = header_root_raw (nth (Z.to_nat h) headers []).
+     fold_branch br pos (dsha raw_tx) = header_root_raw (nth (Z.to_nat h) headers []) /\
+     pos_fits brs pos = true.
 
 Lemma root_eqb_iff x hdr : bytes_eqb (hexlify (rev x)) (header_merkle_root hdr) = true <-> x = header_root_raw hdr.
 Proof. unfold header_merkle_root. apply (wire_eqb x (header_root_raw hdr)). Qed.
@@ -634,6 +635,8 @@ Lemma mv_in_range headers st raw h arg net :
       match m_pos m with
       | None => (st1, RaiseKeyError, fetched)
       | Some pos =>
+          if negb (pos_fits brs pos)
+          then ({| t_height := h; t_position := t_position st; t_verified := false |}, RetTx, fetched) else
           match get_root_of_merkle_tree brs pos (dsha raw) with
           | None => (st1, RaiseHexError, fetched)
           | Some root =>
@@ -653,7 +656,7 @@ Proof.
   unfold C08.maybe_verify, effective.
   destruct ((0 <? h) && (h <? Z.of_nat (length headers)))%Z; [|reflexivity].
   destruct arg as [m|]; destruct (m_merkle _); try reflexivity; destruct (m_pos _); try reflexivity;
-    destruct (C08.get_root_of_merkle_tree _ _ _ _); reflexivity.
+    destruct (negb _); try reflexivity; destruct (C08.get_root_of_merkle_tree _ _ _ _); reflexivity.
 Qed.
 
 (* the new value of the flag, for every previous state *)
@@ -673,13 +676,18 @@ Proof.
   2: { split; [intros [_ Ho]; discriminate Ho | reflexivity]. }
   destruct (m_pos (effective arg net)) as [pos|] eqn:Ep.
   2: { split; [intros [_ Ho]; discriminate Ho | reflexivity]. }
+  destruct (pos_fits brs pos) eqn:Ef; cbn [negb].
+  2: { split.
+       - intros _. unfold mv_state. cbn [fst t_verified]. split; [discriminate|].
+         intros [brs' [pos' [br' [E1 [E2 [_ [_ E5]]]]]]]. inversion E1; inversion E2; subst. congruence.
+       - intro H. exfalso. apply H. split; [exact Hr | reflexivity]. }
   unfold C08.get_root_of_merkle_tree.
   destruct (decode_branches brs) as [br|] eqn:Ed.
   2: { split; [intros [_ Ho]; discriminate Ho | reflexivity]. }
   split.
   - intros _. unfold mv_state. cbn [fst t_verified]. rewrite root_eqb_iff. split.
     + intro H. exists brs, pos, br. repeat split; auto.
-    + intros [brs' [pos' [br' [E1 [E2 [E3 E4]]]]]].
+    + intros [brs' [pos' [br' [E1 [E2 [E3 [E4 _]]]]]]].
       inversion E1; inversion E2; subst. rewrite Ed in E3. inversion E3; subst. exact E4.
   - intro H. exfalso. apply H. split; [exact Hr | reflexivity].
 Qed.
@@ -703,13 +711,16 @@ Proof.
   destruct (m_pos (effective arg net)) as [pos|] eqn:Ep.
   2: { unfold mv_state; cbn [fst t_verified]. rewrite Hst. split; [discriminate|].
        intros [_ [? [? [? [_ [E _]]]]]]. discriminate E. }
+  destruct (pos_fits brs pos) eqn:Ef; cbn [negb].
+  2: { unfold mv_state; cbn [fst t_verified]. split; [discriminate|].
+       intros [_ [brs' [pos' [br' [E1 [E2 [_ [_ E5]]]]]]]]. inversion E1; inversion E2; subst. congruence. }
   unfold C08.get_root_of_merkle_tree.
   destruct (decode_branches brs) as [br|] eqn:Ed.
   2: { unfold mv_state; cbn [fst t_verified]. rewrite Hst. split; [discriminate|].
        intros [_ [brs' [? [? [E1 [_ [E3 _]]]]]]]. inversion E1; subst. rewrite Ed in E3. discriminate E3. }
   unfold mv_state. cbn [fst t_verified]. rewrite root_eqb_iff. split.
   - intro H. split; [exact Hr|]. exists brs, pos, br. repeat split; auto.
-  - intros [_ [brs' [pos' [br' [E1 [E2 [E3 E4]]]]]]].
+  - intros [_ [brs' [pos' [br' [E1 [E2 [E3 [E4 _]]]]]]]].
     inversion E1; inversion E2; subst. rewrite Ed in E3. inversion E3; subst. exact E4.
 Qed.
 
@@ -720,16 +731,40 @@ Theorem unknown_height_never_verified headers st raw h arg net :
   mv_outcome r = RetTx /\ mv_fetched r = false.
 Proof. intro H. cbv zeta. rewrite mv_out_of_range by exact H. repeat split. Qed.
 
+(* the supplied position is recorded whenever the proof was evaluated (it fits the branch); a position
+   the branch cannot address is NOT recorded (fix 3419b3f) *)
 Theorem position_recorded headers st raw h arg net :
   let r := maybe_verify headers st raw h arg net in
   in_range headers h -> mv_outcome r = RetTx ->
-  m_pos (effective arg net) = Some (t_position (mv_state r)).
+  exists brs pos, m_merkle (effective arg net) = Some brs /\ m_pos (effective arg net) = Some pos /\
+    (if pos_fits brs pos then t_position (mv_state r) = pos
+     else t_position (mv_state r) = t_position st /\ t_verified (mv_state r) = false).
 Proof.
   cbv zeta. intros Hr. rewrite (mv_in_range _ _ _ _ _ _ Hr). cbv zeta.
-  destruct (m_merkle (effective arg net)); [|discriminate].
-  destruct (m_pos (effective arg net)); [|discriminate].
-  destruct (C08.get_root_of_merkle_tree _ _ _ _); [|discriminate].
-  reflexivity.
+  destruct (m_merkle (effective arg net)) as [brs|]; [|discriminate].
+  destruct (m_pos (effective arg net)) as [pos|]; [|discriminate].
+  intro Ho. exists brs, pos. split; [reflexivity|]. split; [reflexivity|].
+  destruct (pos_fits brs pos); cbn [negb] in *.
+  - destruct (C08.get_root_of_merkle_tree _ _ _ _); [reflexivity | discriminate].
+  - split; reflexivity.
+Qed.
+
+(* a verified transaction's recorded position fits the branch: 0 <= position < 2^len(branch) *)
+Theorem verified_position_fits headers st raw h arg net :
+  t_verified st = false ->
+  t_verified (mv_state (maybe_verify headers st raw h arg net)) = true ->
+  exists brs, m_merkle (effective arg net) = Some brs /\
+    m_pos (effective arg net) = Some (t_position (mv_state (maybe_verify headers st raw h arg net))) /\
+    (0 <= t_position (mv_state (maybe_verify headers st raw h arg net)) < 2 ^ Z.of_nat (length brs))%Z.
+Proof.
+  intros Hst V. pose proof V as V'. apply verified_iff in V'; [|exact Hst].
+  destruct V' as [Hr [brs [pos [br [E1 [E2 [E3 [E4 E5]]]]]]]].
+  exists brs. split; [exact E1|].
+  revert V. rewrite (mv_in_range _ _ _ _ _ _ Hr). cbv zeta. rewrite E1, E2, E5. cbn [negb].
+  destruct (C08.get_root_of_merkle_tree _ _ _ _); unfold mv_state; cbn [fst t_position t_verified]; intro V.
+  - split; [reflexivity|]. unfold pos_fits in E5. apply andb_true_iff in E5. destruct E5 as [A B].
+    apply Z.leb_le in A. apply Z.ltb_lt in B. lia.
+  - congruence.
 Qed.
 
 (* end to end: the genuine proof of transaction idx of a block whose root sits in the header at
@@ -751,6 +786,11 @@ Proof.
   rewrite Hroot in Hr'. inversion Hr'; subst r'.
   replace (dsha (nth idx raws [])) with (nth idx (map dsha raws) []).
   2: { rewrite (nth_indep _ [] (dsha [])) by exact Hi'. apply map_nth. }
+  assert (Hfit : pos_fits (map wire (branch (map dsha raws) idx)) (Z.of_nat idx) = true).
+  { unfold pos_fits. rewrite map_length. apply andb_true_iff. split; [apply Z.leb_le; lia|].
+    apply Z.ltb_lt. pose proof (branch_length_covers (map dsha raws) idx ltac:(lia)) as Hc.
+    rewrite <- (Nat2Z.inj_pow 2). lia. }
+  rewrite Hfit. cbn [negb].
   rewrite Hg. unfold mv_state, mv_outcome. cbn [fst snd t_verified t_position t_height].
   repeat split. unfold wire. rewrite root_eqb_iff. symmetry. exact Hh.
 Qed.
@@ -765,7 +805,7 @@ Theorem height_mutation headers st raw h h' arg net :
 Proof.
   intros Hst H1 H2.
   apply verified_iff in H1; [|exact Hst]. apply verified_iff in H2; [|exact Hst].
-  destruct H1 as [_ [b1 [p1 [d1 [A1 [A2 [A3 A4]]]]]]]. destruct H2 as [R [b2 [p2 [d2 [B1 [B2 [B3 B4]]]]]]].
+  destruct H1 as [_ [b1 [p1 [d1 [A1 [A2 [A3 [A4 _]]]]]]]]. destruct H2 as [R [b2 [p2 [d2 [B1 [B2 [B3 [B4 _]]]]]]]].
   split; [exact R|].
   rewrite A1 in B1. inversion B1; subst. rewrite A2 in B2. inversion B2; subst.
   rewrite A3 in B3. inversion B3; subst. congruence.
@@ -790,7 +830,7 @@ Theorem verified_tx_in_block headers st raw h arg net raws r :
 Proof.
   intros Hst Hv Hroot Hh.
   apply verified_iff in Hv; [|exact Hst].
-  destruct Hv as [_ [brs [pos [br [E1 [E2 [E3 E4]]]]]]].
+  destruct Hv as [_ [brs [pos [br [E1 [E2 [E3 [E4 _]]]]]]]].
   exists brs, pos, br. repeat split; try assumption.
   intros j Hj Hp Hw.
   assert (Hj' : (j < length (map dsha raws))%nat) by (rewrite map_length; exact Hj).
